@@ -5561,8 +5561,9 @@ int cg_poly_elements_read(int fn, int B, int Z, int S, cgsize_t *elements,
     ElementDataSize = section->connect->dim_vals[0];
 
      /* Double check ElementDataSize (not necessary) */
-    if (section->connect_offset && section->connect_offset->data &&
-        0 == strcmp(CG_SIZE_DATATYPE, section->connect_offset->data_type)) {
+    /* a cached ElementStartOffset is always held as cgsize_t (read_offset_data
+       converts), whatever the stored data type is */
+    if (section->connect_offset && section->connect_offset->data) {
         offset_data = section->connect_offset->data;
     }
 
